@@ -637,6 +637,14 @@ def do_extract(header, sections, report):
         if 'R9' in rules:
             rule_R9(piece, toks)
         out = piece.render()
+        sec = dict(sections)
+        if kind == 'const' and ('sig' in sec or 'body-start' in sec):
+            # ghost wrapper for a constant whose initialiser needs a hint:  const N: T = E;  ->
+            #   exec const N: T <sig> { <proof> E }      (same expression, ghost text only)
+            m = re.match(r'const\s+(\w+)\s*:\s*([^=]+?)\s*=\s*(.*);\s*$', out, re.S)
+            if not m:
+                raise LostAnchor('const %s: unexpected shape' % name)
+            out = 'exec const %s: %s\n%s\n{\n%s\n    %s\n}' % (m.group(1), m.group(2), sec.get('sig', ''), sec.get('body-start', ''), m.group(3))
         _finish(entry, src, s, e, piece, report)
         return out
 
